@@ -4,7 +4,7 @@
     presets N and Sz against their specialised matrix elements, and the finite-sum and
     Fock-state infrastructure needed for matrix products (used by AlgebraProofs.v).
 
-    Specification side: PV.PolySem.  No axioms. *)
+    Specification side: PV.PolySem.  Every result is closed under the global context. *)
 Require Import Bool List Arith Lia ZArith Ring Ring_theory.
 From PV Require Import Outcome Fock Poly PolySem.
 Import ListNotations.
@@ -595,6 +595,32 @@ Proof.
     rewrite state_eqb_neq by congruence. destruct (nth i s false); reflexivity.
 Qed.
 
+(** the map built by N(Nmodes) is literally { c^+_i c_i -> 1 : i < Nmodes }, in this order:
+    the keys are distinct, so nothing is ever merged or erased *)
+Lemma insert_last : forall m c (p : poly K),
+  (forall mc, In mc p -> mono_compare m (fst mc) = Gt) -> insert m c p = p ++ [(m, c)].
+Proof.
+  intros m c. induction p as [|[m' c'] p IH]; intro H; cbn [Poly.insert app]; [reflexivity|].
+  pose proof (H (m', c') (or_introl eq_refl)) as Hh. cbn [fst] in Hh. rewrite Hh. f_equal. apply IH. intros mc Hin. apply H. right. exact Hin.
+Qed.
+
+Lemma mono_compare_n_gt : forall i j, j < i -> mono_compare [cdag i; cann i] [cdag j; cann j] = Gt.
+Proof.
+  intros i j H. unfold mono_compare. cbn [length]. rewrite Nat.compare_refl.
+  cbn [lex_compare]. unfold op_compare at 1, cdag. cbn [fst snd].
+  rewrite (proj2 (Nat.compare_gt_iff i j) H). reflexivity.
+Qed.
+
+Lemma p_N_shape : forall M,
+  p_N K k1 kadd kzero M = map (fun i => ([cdag i; cann i], k1)) (seq 0 M).
+Proof.
+  induction M as [|M IH]; [reflexivity|].
+  unfold p_N in *. rewrite seq_S, fold_left_app, IH, map_app. cbn [fold_left map Nat.add].
+  unfold Poly.padd, p_n. cbn [fold_left fst snd]. apply insert_last.
+  intros mc Hin. apply in_map_iff in Hin. destruct Hin as [j [E Hj]]. subst mc. cbn [fst].
+  apply mono_compare_n_gt. apply in_seq in Hj. lia.
+Qed.
+
 Variable khalf : K.
 Local Notation p_Sz_lists := (p_Sz_lists K k1 kadd kmul ksub kopp kzero khalf).
 Local Notation p_Sz := (p_Sz K k1 kadd kmul ksub kopp kzero khalf).
@@ -781,3 +807,30 @@ Proof. vm_compute. reflexivity. Qed.
 Example padd_cancels :
   padd Z Z.add (fun c => Z.eqb c 0) [([cdag 0], 1%Z)] [([cdag 0], (-1)%Z)] = [].
 Proof. vm_compute. reflexivity. Qed.
+
+(** Sz on 4 modes with up = {0, 2} (so down = {1, 3}), with the constant written 0.5 in the C++
+    replaced by an arbitrary ring element (here 3): <s|Sz|s> = 3 * 1 - 3 * 2 on |1101> *)
+Example Sz_four_modes :
+  exists P, p_Sz Z 1%Z Z.add Z.mul Z.sub Z.opp (fun c => Z.eqb c 0) 3%Z 4 [0; 2] = Done P /\
+            coef_poly Z 0%Z 1%Z Z.add Z.mul Z.opp P [true; true; false; true] [true; true; false; true] = (-3)%Z.
+Proof. eexists. split; [vm_compute; reflexivity|]. vm_compute. reflexivity. Qed.
+
+Example Sz_four_modes_by_theorem :
+  forall P, p_Sz Z 1%Z Z.add Z.mul Z.sub Z.opp (fun c => Z.eqb c 0) 3%Z 4 [0; 2] = Done P ->
+  coef_poly Z 0%Z 1%Z Z.add Z.mul Z.opp P [true; true; false; true] [true; true; false; true] = (-3)%Z.
+Proof.
+  intros P HP.
+  destruct (Sz_shortcut_sound Z 0%Z 1%Z Z.add Z.mul Z.sub Z.opp _ Z_ring_ok 3%Z 4 [0; 2]
+              [true; true; false; true] P eq_refl) as [H _]; [repeat constructor|exact HP|].
+  rewrite H. reflexivity.
+Qed.
+
+(** an odd number of modes: the two index lists differ in length and the constructor throws *)
+Example Sz_three_modes_throws :
+  p_Sz Z 1%Z Z.add Z.mul Z.sub Z.opp (fun c => Z.eqb c 0) 3%Z 3 [0] = Throws 1.
+Proof. vm_compute. reflexivity. Qed.
+
+Example p_N_three_modes_shape :
+  p_N Z 1%Z Z.add (fun c => Z.eqb c 0) 3 =
+  [([cdag 0; cann 0], 1%Z); ([cdag 1; cann 1], 1%Z); ([cdag 2; cann 2], 1%Z)].
+Proof. rewrite p_N_shape. reflexivity. Qed.
